@@ -98,8 +98,23 @@ Lemma omap_dur o : odur_ok o = true -> omap parse_duration (odur_words o) = Some
 Proof. destruct o as [d|]; [|reflexivity]. cbn. intro H. now rewrite parse_print_dur. Qed.
 Lemma omap_int o : oint32_ok o = true -> omap (parse_int 32) (oz_words o) = Some o.
 Proof. destruct o as [z|]; [|reflexivity]. cbn. intro H. now rewrite parse_int_print. Qed.
-Lemma omap_float o : omap parse_float_int (on_words o) = Some (option_map Z.of_N o).
-Proof. destruct o as [n|]; [|reflexivity]. cbn. unfold parse_float_int. now rewrite parse_print_N. Qed.
+Lemma append_nil_r s : (s ++ "")%string = s.
+Proof. induction s; cbn; congruence. Qed.
+Lemma parse_rate_word r : rate_ok r = true -> parse_rate (rate_word r) = Some (rate_json r).
+Proof.
+  destruct r as [n|ip frac]; cbn [rate_ok]; intro H.
+  - unfold parse_rate. cbn [rate_word rate_json]. rewrite <- (append_nil_r (print_N n)) at 1.
+    unfold print_N at 1. rewrite span_digits_uint by exact I. fold (print_N n). now rewrite parse_print_N.
+  - repeat (apply andb_true_iff in H; destruct H as [H ?]).
+    unfold parse_rate. cbn [rate_word rate_json]. unfold print_N at 1.
+    rewrite span_digits_uint by reflexivity. fold (print_N ip).
+    cbn [Ascii.eqb Bool.eqb]. cbv iota. rewrite parse_print_N. cbn [obind].
+    rewrite String.eqb_refl, H. match goal with Hx : last_nonzero _ = true |- _ => rewrite Hx end. reflexivity.
+Qed.
+Lemma omap_rate o : orate_ok o = true -> omap parse_rate (orate_words o) = Some (option_map rate_json o).
+Proof. destruct o as [r|]; [|reflexivity]. cbn. intro H. now rewrite parse_rate_word. Qed.
+Lemma oj_rate_json o : oj_rate (option_map rate_json o) = or_json o.
+Proof. destruct o; reflexivity. Qed.
 Lemma oz_dur o : oz (option_map dur_ns o) = od_ns o.
 Proof. destruct o; reflexivity. Qed.
 Lemma oz_N o : oz (option_map Z.of_N o) = on_ o.
@@ -390,32 +405,91 @@ Proof.
   apply existsb_exists. exists (seg_name e'). split; [now apply in_map|]. rewrite E. apply String.eqb_refl.
 Qed.
 
-Lemma parse_tls_inline w n a :
-  parse_tls (Seg (w :: n :: a) false []) =
-  (ms <- traverse (fun en => j <- parse_tlsm (seg_name en) en ;; Some (seg_name en, j)) [Seg (n :: a) false []] ;;
-   Some (JObj (sort_kv ms))).
-Proof. reflexivity. Qed.
+Lemma set_seg_shape w il es : exists args hb body, set_seg w il es = Seg (w :: args) hb body.
+Proof.
+  unfold set_seg. destruct il; [|now eexists _, _, _].
+  destruct es as [|[ws hb body] [|? ?]]; now eexists _, _, _.
+Qed.
+
+Section FlatSet.
+  Context {T : Type}.
+  Variables (tname : T -> string) (tseg : T -> seg) (tjson : T -> json).
+  Variable leafp : string -> seg -> option json.
+  Hypothesis shape : forall t, exists args hb body, tseg t = Seg (tname t :: args) hb body.
+
+  Lemma flat_seg_name t : seg_name (tseg t) = tname t.
+  Proof. destruct (shape t) as (a & hb & b & E). now rewrite E. Qed.
+
+  Lemma flat_set_eq w il subs :
+    Forall (fun t => leafp (tname t) (tseg t) = Some (tjson t)) subs ->
+    has_dup (map tname subs) = false ->
+    parse_flat_set leafp (set_seg w il (map tseg subs)) =
+    Some (sort_kv (map (fun t => (tname t, tjson t)) subs)).
+  Proof.
+    intros Hall Hd.
+    assert (Htr : traverse (fun en => j <- leafp (seg_name en) en ;; Some (seg_name en, j)) (map tseg subs) =
+                  Some (map (fun t => (tname t, tjson t)) subs)).
+    { apply traverse_map. eapply Forall_impl; [|exact Hall].
+      intros t Ht. cbv beta. rewrite flat_seg_name, Ht. reflexivity. }
+    assert (Hblock : parse_flat_set leafp (Seg [w] true (map tseg subs)) =
+                     Some (sort_kv (map (fun t => (tname t, tjson t)) subs))).
+    { unfold parse_flat_set. rewrite dedup_first_id.
+      - rewrite Htr. reflexivity.
+      - intros; reflexivity.
+      - rewrite map_map. rewrite (map_ext _ tname) by apply flat_seg_name. exact Hd. }
+    unfold set_seg. destruct il; [|exact Hblock].
+    destruct subs as [|t [|t2 subs]]; [exact Hblock| |cbn [map] in *; destruct (tseg t); exact Hblock].
+    cbn [map] in *. destruct (shape t) as (a & hb & b & E). rewrite E in *.
+    unfold parse_flat_set. cbn [dedup_first existsb]. rewrite Htr. reflexivity.
+  Qed.
+End FlatSet.
+
+Lemma tlsm_shape t : exists args hb body, tlsm_seg t = Seg (tlsm_name t :: args) hb body.
+Proof. unfold tlsm_seg. now eexists _, _, _. Qed.
+
+Lemma tls_set_eq w il subs : negb (has_dup (map tlsm_name subs)) && forallb tlsm_ok subs = true ->
+  parse_flat_set parse_tlsm (set_seg w il (map tlsm_seg subs)) =
+  Some (sort_kv (map (fun t => (tlsm_name t, tlsm_json t)) subs)).
+Proof.
+  intro H. apply andb_true_iff in H. destruct H as [Hd Hall]. apply negb_true_iff in Hd.
+  apply (flat_set_eq tlsm_name tlsm_seg tlsm_json parse_tlsm tlsm_shape); [|exact Hd].
+  apply forallb_Forall in Hall. eapply Forall_impl; [|exact Hall]. intros t. apply tlsm_eq.
+Qed.
 
 Lemma tls_eq quic il subs : mleaf_ok (MTls quic il subs) = true ->
   parse_tls (mleaf_seg (MTls quic il subs)) = Some (mleaf_json (MTls quic il subs)).
 Proof.
+  cbn [mleaf_ok]. intro H. unfold parse_tls. cbn [mleaf_seg mleaf_json]. now rewrite tls_set_eq.
+Qed.
+
+(* ---- http matcher: a set of request matchers (host / path / method / not over them) *)
+Lemma hsimple_shape (h : hsimple) : exists args hb body, hsimple_seg h = Seg (hk_name (fst h) :: args) hb body.
+Proof. unfold hsimple_seg. now eexists _, _, _. Qed.
+Lemma hsimple_eq h : hsimple_ok h = true -> parse_hsimple (hk_name (fst h)) (hsimple_seg h) = Some (hsimple_json h).
+Proof.
+  destruct h as [k vals]. unfold hsimple_ok. cbn [fst snd]. intro H.
+  destruct vals; [discriminate|]. destruct k; reflexivity.
+Qed.
+Lemma httpm_shape m : exists args hb body, httpm_seg m = Seg (httpm_name m :: args) hb body.
+Proof. destruct m; [apply hsimple_shape|apply set_seg_shape]. Qed.
+Lemma httpm_eq m : httpm_ok m = true -> parse_httpm (httpm_name m) (httpm_seg m) = Some (httpm_json m).
+Proof.
+  destruct m as [h|il inner]; cbn [httpm_ok httpm_name httpm_seg httpm_json]; intro H.
+  - unfold parse_httpm. replace (hk_name (fst h) =? "not") with false by (destruct h as [[] ?]; reflexivity).
+    now apply hsimple_eq.
+  - apply andb_true_iff in H. destruct H as [Hd Hall]. apply negb_true_iff in Hd.
+    unfold parse_httpm. cbn [String.eqb Ascii.eqb Bool.eqb]. cbv iota.
+    rewrite (flat_set_eq (fun h : hsimple => hk_name (fst h)) hsimple_seg hsimple_json parse_hsimple hsimple_shape);
+      [reflexivity| |exact Hd].
+    apply forallb_Forall in Hall. eapply Forall_impl; [|exact Hall]. intros h. apply hsimple_eq.
+Qed.
+Lemma http_eq il subs : mleaf_ok (MHttp il subs) = true ->
+  parse_http (mleaf_seg (MHttp il subs)) = Some (mleaf_json (MHttp il subs)).
+Proof.
   cbn [mleaf_ok]. intro H. apply andb_true_iff in H. destruct H as [Hd Hall]. apply negb_true_iff in Hd.
-  cbn [mleaf_seg mleaf_json]. set (w := if quic then "quic" else "tls").
-  assert (Htr : traverse (fun en => j <- parse_tlsm (seg_name en) en ;; Some (seg_name en, j)) (map tlsm_seg subs) =
-                Some (map (fun t => (tlsm_name t, tlsm_json t)) subs)).
-  { apply traverse_map. apply forallb_Forall in Hall. eapply Forall_impl; [|exact Hall].
-    intros t Ht. rewrite tlsm_seg_name, (tlsm_eq t Ht). reflexivity. }
-  assert (Hblock : parse_tls (Seg [w] true (map tlsm_seg subs)) =
-                   Some (JObj (sort_kv (map (fun t => (tlsm_name t, tlsm_json t)) subs)))).
-  { unfold parse_tls. rewrite dedup_first_id.
-    - rewrite Htr. reflexivity.
-    - intros; reflexivity.
-    - rewrite map_map. exact Hd. }
-  unfold set_seg. destruct il; [|exact Hblock].
-  destruct subs as [|t [|t2 subs]]; [exact Hblock| |exact Hblock].
-  cbn [map] in *. destruct (tlsm_seg t) as [ws hb body] eqn:E.
-  unfold tlsm_seg in E. inversion E; subst ws hb body. clear E.
-  rewrite parse_tls_inline. rewrite Htr. reflexivity.
+  unfold parse_http. cbn [mleaf_seg mleaf_json].
+  rewrite (flat_set_eq httpm_name httpm_seg httpm_json parse_httpm httpm_shape); [reflexivity| |exact Hd].
+  apply forallb_Forall in Hall. eapply Forall_impl; [|exact Hall]. intros m. apply httpm_eq.
 Qed.
 
 Definition mleaf_proved (m : mleaf) : bool := mleaf_ok m.
@@ -425,6 +499,7 @@ Lemma mleaf_eq_proved x : mleaf_proved x = true ->
 Proof.
   destruct x; unfold mleaf_proved; intro H; try reflexivity.
   - destruct quic; now apply tls_eq.
+  - now apply http_eq.
   - now apply socks4_eq.
   - now apply socks5m_eq.
   - now apply regexp_eq.
@@ -458,10 +533,10 @@ Proof.
   rewrite known_render by reflexivity.
   rewrite (once1_occ_opt "latency" _ (odur_words l)) by occ. cbn [obind]. rewrite omap_dur by assumption. cbn [obind].
   rewrite (once1_occ_opt "read_burst_size" _ (oz_words a)) by occ. cbn [obind]. rewrite omap_int by assumption. cbn [obind].
-  rewrite (once1_occ_opt "read_bytes_per_second" _ (on_words b)) by occ. cbn [obind]. rewrite omap_float. cbn [obind].
+  rewrite (once1_occ_opt "read_bytes_per_second" _ (orate_words b)) by occ. cbn [obind]. rewrite omap_rate by assumption. cbn [obind].
   rewrite (once1_occ_opt "total_read_burst_size" _ (oz_words c)) by occ. cbn [obind]. rewrite omap_int by assumption. cbn [obind].
-  rewrite (once1_occ_opt "total_read_bytes_per_second" _ (on_words d)) by occ. cbn [obind]. rewrite omap_float. cbn [obind].
-  now rewrite !oz_dur, !oz_N.
+  rewrite (once1_occ_opt "total_read_bytes_per_second" _ (orate_words d)) by occ. cbn [obind]. rewrite omap_rate by assumption. cbn [obind].
+  now rewrite !oz_dur, !oj_rate_json.
 Qed.
 
 (* credentials: pairs written into a map; with distinct users the map is the list itself *)
@@ -519,21 +594,69 @@ Qed.
 Lemma uptls_none_lookup k : field_lookup k [] = [].
 Proof. reflexivity. Qed.
 
+Lemma trust_pool_eq certs : negb (is_nil certs) = true ->
+  parse_trust_pool (Seg ["tls_trust_pool"; "inline"] true [mkline ("trust_der", certs)]) = Some (trust_json certs).
+Proof.
+  intro H. unfold parse_trust_pool. cbn [String.eqb Ascii.eqb Bool.eqb]. cbv iota.
+  change [mkline ("trust_der", certs)] with (map mkline [("trust_der", certs)]). rewrite opt_lines_mk.
+  cbn [obind known forallb fst existsb String.eqb Ascii.eqb Bool.eqb orb andb]. cbv iota.
+  unfold occurrences. cbn [filter fst String.eqb Ascii.eqb Bool.eqb map snd List.concat]. cbv iota.
+  cbn [map snd List.concat]. rewrite app_nil_r. destruct certs; [discriminate|reflexivity].
+Qed.
+
+Lemma filter_lines_key_early key L :
+  forallb (fun l => negb (fst l =? key)) L = true ->
+  filter (fun s => seg_name s =? key) (map mkline L) = [] /\
+  filter (fun s => negb (seg_name s =? key)) (map mkline L) = map mkline L.
+Proof.
+  induction L as [|[k a] L IH]; intro H; [split; reflexivity|].
+  cbn [forallb fst] in H. apply andb_true_iff in H. destruct H as [H1 H2]. destruct (IH H2) as [I1 I2].
+  apply negb_true_iff in H1.
+  assert (Hu : (seg_name (mkline (k, a)) =? key) = false) by (unfold mkline; cbn [seg_name seg_words fst snd]; exact H1).
+  cbn [map filter]. rewrite Hu. cbn [negb]. rewrite I1, I2. split; reflexivity.
+Qed.
+Lemma forallb_render_early (p : string -> bool) fs :
+  forallb (fun f => p (fst f)) fs = true -> forallb (fun l => p (fst l)) (render fs) = true.
+Proof.
+  induction fs as [|[k occs] fs IH]; intro H; [reflexivity|].
+  cbn [forallb fst] in H. apply andb_true_iff in H. destruct H as [H1 H2].
+  unfold render in *. cbn [flat_map fst snd]. rewrite forallb_app, (IH H2), andb_true_r.
+  apply forallb_forall. intros x Hx. apply in_map_iff in Hx. destruct Hx as (o & <- & _). exact H1.
+Qed.
+
 Lemma upstream_eq u : upstream_ok u = true -> parse_upstream (upstream_seg u) = Some (upstream_json u).
 Proof.
   destruct u as [args dial mc tls]. unfold upstream_ok. cbn [up_args up_dial up_max_conns up_tls].
   intro H. repeat (apply andb_true_iff in H; destruct H as [H ?]). apply negb_true_iff in H.
-  unfold upstream_seg, blockL, block. cbn [up_args].
-  assert (E : parse_upstream (Seg ("upstream" :: args) true (map mkline (render (upstream_fields (Upstream args dial mc tls))))) =
-              Some (upstream_json (Upstream args dial mc tls))).
-  { unfold parse_upstream. rewrite opt_lines_mk. cbn [obind].
+  unfold upstream_seg. cbn [up_args up_tls].
+  set (body := map mkline _ ++ _).
+  assert (E : forall hb, parse_upstream (Seg ("upstream" :: args) hb body) = Some (upstream_json (Upstream args dial mc tls))).
+  { intro hb. subst body. unfold parse_upstream. rewrite !filter_app.
     unfold upstream_fields, upstream_json, uptls_json.
-    cbn [up_args up_dial up_max_conns up_tls option_map ut_insecure ut_server_name ut_renegotiation ut_timeout ut_curves ut_except_ports ut_client_auth].
+    cbn [up_args up_dial up_max_conns up_tls option_map].
     destruct tls as [t|].
-    - destruct t as [ins sn re to cu ep ca]. unfold uptls_ok in *. cbn [ut_timeout ut_client_auth ut_renegotiation] in *.
+    - destruct t as [ins sn re to cu ep ca tr]. unfold uptls_ok in *.
+      cbn [ut_timeout ut_client_auth ut_renegotiation ut_trust] in *.
       repeat match goal with Hx : _ && _ = true |- _ => apply andb_true_iff in Hx; destruct Hx as [Hx ?] end.
-      unfold uptls_fields. cbn [ut_insecure ut_server_name ut_renegotiation ut_timeout ut_curves ut_except_ports ut_client_auth List.app].
-      rewrite known_render by reflexivity.
+      unfold uptls_fields, uptls_trust_seg.
+      cbn [ut_insecure ut_server_name ut_renegotiation ut_timeout ut_curves ut_except_ports ut_client_auth ut_trust List.app].
+      match goal with |- context [map mkline (render ?F)] => set (fs := F) end.
+      destruct (filter_lines_key_early "tls_trust_pool" (render fs)) as [F1 F2].
+      { apply (forallb_render_early (fun k => negb (k =? "tls_trust_pool"))). reflexivity. }
+      rewrite F1, F2. cbn [List.app].
+      assert (Htp : exists tpj,
+                (match filter (fun s => seg_name s =? "tls_trust_pool")
+                         match tr with Some certs => [Seg ["tls_trust_pool"; "inline"] true [mkline ("trust_der", certs)]] | None => [] end with
+                 | [] => Some None | [t] => option_map Some (parse_trust_pool t) | _ => None end = Some tpj) /\
+                tpj = option_map trust_json tr /\
+                filter (fun s => negb (seg_name s =? "tls_trust_pool"))
+                  match tr with Some certs => [Seg ["tls_trust_pool"; "inline"] true [mkline ("trust_der", certs)]] | None => [] end = []).
+      { destruct tr as [certs|].
+        - exists (Some (trust_json certs)). cbn [filter seg_name seg_words String.eqb Ascii.eqb Bool.eqb negb option_map].
+          rewrite trust_pool_eq by assumption. repeat split.
+        - exists None. repeat split. }
+      destruct Htp as (tpj & Htp1 & Htp2 & Htp3). rewrite Htp3, app_nil_r, opt_lines_mk. cbn [obind].
+      subst fs. rewrite known_render by reflexivity. rewrite Htp1. cbn [obind].
       rewrite (multi_occ_if "dial" _ dial) by occ.
       rewrite (once1_occ_opt "max_connections" _ (oz_words mc)) by occ. cbn [obind].
       rewrite omap_int by assumption. cbn [obind].
@@ -548,11 +671,18 @@ Proof.
       rewrite (once1_occ_opt "tls_timeout" _ (odur_words to)) by occ.
       cbn [obind]. rewrite omap_dur by assumption. cbn [obind orb].
       assert (Hre : match re with Some v => if (v =? "never") || (v =? "once") || (v =? "freely") then Some tt else None | None => Some tt end = Some tt).
-      { destruct re as [v|]; [|reflexivity]. match goal with Hx : _ = true |- _ => now rewrite Hx end. }
+      { destruct re as [v|]; [|reflexivity].
+        match goal with Hx : (_ || _ || _) = true |- _ => now rewrite Hx end. }
+      subst tpj.
       destruct ca as [|c1 [|c2 [|c3 ca]]]; cbn [obind]; try (cbn in *; discriminate);
         rewrite Hre; cbn [obind]; rewrite oz_dur;
         (destruct (args ++ dial) eqn:Ead; [discriminate H|]); reflexivity.
-    - cbn [List.app]. rewrite known_render by reflexivity.
+    - cbn [List.app]. rewrite app_nil_r.
+      match goal with |- context [map mkline (render ?F)] => set (fs := F) end.
+      destruct (filter_lines_key_early "tls_trust_pool" (render fs)) as [F1 F2].
+      { apply (forallb_render_early (fun k => negb (k =? "tls_trust_pool"))). reflexivity. }
+      rewrite F1, F2. rewrite opt_lines_mk. cbn [obind]. subst fs.
+      rewrite known_render by reflexivity. cbn [obind].
       rewrite (multi_occ_if "dial" _ dial) by occ.
       rewrite (once1_occ_opt "max_connections" _ (oz_words mc)) by occ. cbn [obind].
       rewrite omap_int by assumption. cbn [obind].
@@ -568,9 +698,7 @@ Proof.
       cbn [obind omap]. rewrite !occurrences_render. cbn [field_lookup String.eqb Ascii.eqb Bool.eqb List.app]. cbv iota.
       rewrite ?app_nil_r. cbn [is_nil negb orb is_some].
       destruct (args ++ dial) eqn:Ead; [discriminate H|]. reflexivity. }
-  destruct (map mkline _) eqn:Em; [|exact E].
-  (* no option lines at all: "upstream <args>" *)
-  rewrite <- E. unfold parse_upstream. reflexivity.
+  unfold block. destruct body; [exact (E false)|exact (E true)].
 Qed.
 
 Definition is_upstream (s : seg) : bool := seg_name s =? "upstream".
@@ -594,7 +722,7 @@ Proof.
   apply forallb_forall. intros x Hx. apply in_map_iff in Hx. destruct Hx as (o & <- & _). exact H1.
 Qed.
 Lemma upstream_seg_name u : seg_name (upstream_seg u) = "upstream".
-Proof. unfold upstream_seg, blockL, block. now destruct (map mkline _). Qed.
+Proof. unfold upstream_seg, block. now destruct (_ ++ _). Qed.
 Lemma filter_upstreams ups :
   filter is_upstream (map upstream_seg ups) = map upstream_seg ups /\
   filter (fun s => negb (is_upstream s)) (map upstream_seg ups) = [].
@@ -656,12 +784,85 @@ Proof.
   - exact (E true).
 Qed.
 
+(* ---- tls handler *)
+Lemma filter_lines_key key L :
+  forallb (fun l => negb (fst l =? key)) L = true ->
+  filter (fun s => seg_name s =? key) (map mkline L) = [] /\
+  filter (fun s => negb (seg_name s =? key)) (map mkline L) = map mkline L.
+Proof.
+  induction L as [|[k a] L IH]; intro H; [split; reflexivity|].
+  cbn [forallb fst] in H. apply andb_true_iff in H. destruct H as [H1 H2]. destruct (IH H2) as [I1 I2].
+  apply negb_true_iff in H1.
+  assert (Hu : (seg_name (mkline (k, a)) =? key) = false) by (unfold mkline; cbn [seg_name seg_words fst snd]; exact H1).
+  cbn [map filter]. rewrite Hu. cbn [negb]. rewrite I1, I2. split; reflexivity.
+Qed.
+
+Lemma set_seg_name' w il es : seg_name (set_seg w il es) = w.
+Proof. destruct (set_seg_shape w il es) as (a & hb & b & E). now rewrite E. Qed.
+
+Lemma conn_policy_eq c : conn_policy_ok c = true -> parse_conn_policy (conn_policy_seg c) = Some (conn_policy_json c).
+Proof.
+  destruct c as [alpn ci cu ds dr fs sl pr mt]. unfold conn_policy_ok. cbn [cp_protocols cp_match]. intro H.
+  apply andb_true_iff in H. destruct H as [Hp Hm].
+  unfold conn_policy_seg, parse_conn_policy. rewrite !filter_app.
+  set (fsd := conn_policy_fields _).
+  destruct (filter_lines_key "match" (render fsd)) as [F1 F2].
+  { apply (forallb_render (fun k => negb (k =? "match"))). reflexivity. }
+  rewrite F1, F2. cbn [List.app].
+  assert (Fm : filter (fun s => seg_name s =? "match") (cp_match_seg (ConnPolicy alpn ci cu ds dr fs sl pr mt)) =
+               cp_match_seg (ConnPolicy alpn ci cu ds dr fs sl pr mt) /\
+               filter (fun s => negb (seg_name s =? "match")) (cp_match_seg (ConnPolicy alpn ci cu ds dr fs sl pr mt)) = []).
+  { unfold cp_match_seg. cbn [cp_match]. destruct mt as [[il subs]|]; [|split; reflexivity].
+    cbn [filter]. rewrite set_seg_name'. split; reflexivity. }
+  destruct Fm as [Fm1 Fm2]. rewrite Fm1, Fm2, app_nil_r. rewrite opt_lines_mk. cbn [obind].
+  subst fsd. unfold conn_policy_fields.
+  cbn [cp_alpn cp_ciphers cp_curves cp_default_sni cp_drop cp_fallback_sni cp_secrets_log cp_protocols].
+  rewrite known_render by reflexivity.
+  assert (Hmj : match cp_match_seg (ConnPolicy alpn ci cu ds dr fs sl pr mt) with
+                | [] => Some None
+                | [m] => option_map Some (parse_flat_set parse_tlsm m)
+                | _ => None end =
+                Some (match mt with Some (_, subs) => Some (sort_kv (map (fun t => (tlsm_name t, tlsm_json t)) subs)) | None => None end)).
+  { unfold cp_match_seg. cbn [cp_match]. destruct mt as [[il subs]|]; [|reflexivity]. now rewrite tls_set_eq. }
+  rewrite Hmj. cbn [obind].
+  rewrite (multi_occ_if "alpn" _ alpn) by occ.
+  rewrite (multi_occ_if "ciphers" _ ci) by occ.
+  rewrite (multi_occ_if "curves" _ cu) by occ.
+  rewrite (once1_occ_opt "default_sni" _ ds) by occ.
+  rewrite (flag_occ_flag "drop" _ dr) by occ.
+  rewrite (once1_occ_opt "fallback_sni" _ fs) by occ.
+  rewrite (once1_occ_opt "insecure_secrets_log" _ sl) by occ.
+  rewrite (once_occ_if "protocols" _ pr) by occ.
+  cbn [obind]. unfold conn_policy_json.
+  cbn [cp_alpn cp_ciphers cp_curves cp_default_sni cp_drop cp_fallback_sni cp_secrets_log cp_protocols cp_match].
+  destruct pr as [|p1 [|p2 [|p3 pr]]]; [| | |discriminate Hp]; cbn [obind]; destruct mt as [[il subs]|]; reflexivity.
+Qed.
+
+Lemma conn_policy_seg_name c : seg_name (conn_policy_seg c) = "connection_policy".
+Proof. reflexivity. Qed.
+
+Lemma tls_handler_eq cps : hleaf_ok (HTls cps) = true ->
+  parse_tls_handler (hleaf_seg (HTls cps)) = Some (hleaf_json (HTls cps)).
+Proof.
+  cbn [hleaf_ok]. intro H.
+  assert (E : forall hb, parse_tls_handler (Seg ["tls"] hb (map conn_policy_seg cps)) = Some (hleaf_json (HTls cps))).
+  { intro hb. unfold parse_tls_handler.
+    replace (forallb (fun s => seg_name s =? "connection_policy") (map conn_policy_seg cps)) with true
+      by (clear; induction cps; cbn; auto).
+    rewrite (traverse_map _ conn_policy_seg conn_policy_json); [reflexivity|].
+    apply forallb_Forall in H. eapply Forall_impl; [|exact H]. intros c. apply conn_policy_eq. }
+  cbn [hleaf_seg]. unfold block. destruct (map conn_policy_seg cps) eqn:Em.
+  - exact (E false).
+  - exact (E true).
+Qed.
+
 Definition hleaf_proved (h : hleaf) : bool := hleaf_ok h.
 
 Lemma hleaf_eq_proved x : hleaf_proved x = true ->
   hleaf_parse (hleaf_name x) (hleaf_seg x) = Some (hleaf_json x).
 Proof.
   destruct x; unfold hleaf_proved; intro H.
+  - now apply tls_handler_eq.
   - reflexivity.
   - now apply pp_handler_eq.
   - now apply throttle_eq.
@@ -681,6 +882,15 @@ Lemma blockL_shape name args fs :
   exists hb body, blockL name args fs = Seg (name :: args) hb body /\ seg_wf (blockL name args fs) = true.
 Proof. apply block_shape, mklines_wf. Qed.
 
+Lemma set_seg_shape_wf w il es : forallb seg_wf es = true ->
+  exists args hb body, set_seg w il es = Seg (w :: args) hb body /\ seg_wf (set_seg w il es) = true.
+Proof.
+  intro H. destruct (set_seg_shape w il es) as (a & hb & b & E). exists a, hb, b. split; [exact E|].
+  now apply set_seg_wf.
+Qed.
+Lemma tlsm_segs_wf subs : forallb seg_wf (map tlsm_seg subs) = true.
+Proof. induction subs as [|t subs IH]; [reflexivity|]. cbn [map forallb]. now rewrite IH. Qed.
+
 Lemma mleaf_shape_wf x :
   exists args hb body, mleaf_seg x = Seg (mleaf_name x :: args) hb body /\ seg_wf (mleaf_seg x) = true.
 Proof.
@@ -689,11 +899,14 @@ Proof.
     try (match goal with |- context [blockL ?n [] ?f] =>
            destruct (blockL_shape n [] f) as (hb & body & E & W); exists [], hb, body; split; assumption end).
   - (* tls / quic *)
-    set (w := if quic then "quic" else "tls").
-    assert (Hw : seg_wf (set_seg w il (map tlsm_seg subs)) = true).
-    { apply set_seg_wf. clear. induction subs as [|t subs IH]; [reflexivity|]. cbn [map forallb]. now rewrite IH. }
-    unfold set_seg in *. destruct il; [|now exists [], true, (map tlsm_seg subs)].
-    destruct (map tlsm_seg subs) as [|[ws hb body] [|? ?]]; eexists _, _, _; split; try reflexivity; exact Hw.
+    destruct (set_seg_shape_wf (if quic then "quic" else "tls") il (map tlsm_seg subs) (tlsm_segs_wf subs))
+      as (a & hb & b & E & W). now exists a, hb, b.
+  - (* http *)
+    destruct (set_seg_shape_wf "http" il (map httpm_seg subs)) as (a & hb & b & E & W); [|now exists a, hb, b].
+    clear. induction subs as [|m subs IH]; [reflexivity|]. cbn [map forallb]. rewrite IH, andb_true_r.
+    destruct m as [h|il inner]; [reflexivity|]. cbn [httpm_seg].
+    destruct (set_seg_shape_wf "not" il (map hsimple_seg inner)) as (? & ? & ? & _ & W); [|exact W].
+    clear. induction inner; [reflexivity|]. cbn [map forallb]. now rewrite IHinner.
   - (* dns *)
     match goal with |- context [block "dns" [] (map mkline ?L)] =>
       destruct (block_shape "dns" [] (map mkline L) (mklines_wf L)) as (hb & body & E & W) end.
@@ -701,7 +914,12 @@ Proof.
 Qed.
 
 Lemma upstream_seg_wf u : seg_wf (upstream_seg u) = true.
-Proof. unfold upstream_seg. destruct (blockL_shape "upstream" (up_args u) (upstream_fields u)) as (? & ? & _ & W). exact W. Qed.
+Proof.
+  unfold upstream_seg. match goal with |- context [block _ _ ?ls] =>
+    destruct (block_shape "upstream" (up_args u) ls) as (? & ? & _ & W); [|exact W] end.
+  rewrite forallb_app, mklines_wf. cbn [andb]. destruct (up_tls u) as [t|]; [|reflexivity].
+  unfold uptls_trust_seg. now destruct (ut_trust t).
+Qed.
 
 Lemma hleaf_shape_wf x :
   exists args hb body, hleaf_seg x = Seg (hleaf_name x :: args) hb body /\ seg_wf (hleaf_seg x) = true.
@@ -710,6 +928,12 @@ Proof.
     try (eexists _, _, _; split; reflexivity);
     try (match goal with |- context [blockL ?n [] ?f] =>
            destruct (blockL_shape n [] f) as (hb & body & E & W); exists [], hb, body; split; assumption end).
+  - (* tls handler *)
+    destruct (block_shape "tls" [] (map conn_policy_seg cps)) as (hb & body & E & W); [|now exists [], hb, body].
+    clear. induction cps as [|c cps IH]; [reflexivity|]. cbn [map forallb]. rewrite IH, andb_true_r.
+    unfold conn_policy_seg. cbn [seg_wf]. rewrite forallb_app, mklines_wf. cbn [andb].
+    unfold cp_match_seg. destruct (cp_match c) as [[il subs]|]; [|reflexivity].
+    cbn [forallb]. rewrite andb_true_r. apply set_seg_wf, tlsm_segs_wf.
   - destruct (block_shape "proxy" (px_args c) (map mkline (render (proxy_fields c)) ++ map upstream_seg (px_upstreams c)))
       as (hb & body & E & W).
     + rewrite forallb_app, mklines_wf. cbn [andb]. induction (px_upstreams c); [reflexivity|].
@@ -768,3 +992,26 @@ Proof. intros H1 H2. rewrite H1 in H2. now inversion H2. Qed.
 Lemma adapt_respects_json c1 c2 : config_ok_proved c1 = true -> config_ok_proved c2 = true ->
   to_json_l4 c1 = to_json_l4 c2 -> adapt_l4 (print_l4 c1) = adapt_l4 (print_l4 c2).
 Proof. intros H1 H2 E. now rewrite (adapt_structural_l4 _ H1), (adapt_structural_l4 _ H2), E. Qed.
+
+(* ------------------------------------------------------------------ server numbering across global blocks *)
+Definition server_json_l4 : serverT -> json := server_json mleaf hleaf mleaf_name mleaf_json hleaf_name hleaf_json.
+
+(* parseLayer4 merges the global "layer4" blocks in source order: the i-th server of the file (counting
+   through the blocks in order) is the one stated under "srv<i>" *)
+Theorem server_numbering_l4 (c : configT) i s :
+  config_ok_proved c = true -> nth_error (List.concat c) i = Some s ->
+  exists j, adapt_l4 (print_l4 c) = Some j /\ adapted_server j (N.of_nat i) = Some (server_json_l4 s).
+Proof.
+  intros Hok Hn. exists (to_json_l4 c). split; [now apply adapt_structural_l4|].
+  unfold to_json_l4, to_json. apply adapted_server_numbered.
+  fold server_json_l4. rewrite nth_error_map, Hn. reflexivity.
+Qed.
+
+(* how the servers are grouped into global blocks does not matter, only their order *)
+Theorem blocks_merge_l4 (c1 c2 : configT) :
+  config_ok_proved c1 = true -> config_ok_proved c2 = true -> List.concat c1 = List.concat c2 ->
+  adapt_l4 (print_l4 c1) = adapt_l4 (print_l4 c2).
+Proof.
+  intros H1 H2 E. rewrite (adapt_structural_l4 _ H1), (adapt_structural_l4 _ H2).
+  unfold to_json_l4, to_json. now rewrite E.
+Qed.
